@@ -50,7 +50,7 @@ var (
 	pmDescT   = &fakeType{name: "gosmt.protoMessageDescriptor", methods: map[string]bool{"Name": true, "FullName": true, "Fields": true, "Oneofs": true, "Parent": true}}
 	// the parent of a top-level message: a file descriptor, which is not a message descriptor
 	pmFileT = &fakeType{name: "gosmt.protoFileDescriptor", methods: map[string]bool{"Path": true}}
-	pmFieldsT = &fakeType{name: "gosmt.protoFieldDescriptors", methods: map[string]bool{"ByName": true, "Len": true, "Get": true}}
+	pmFieldsT = &fakeType{name: "gosmt.protoFieldDescriptors", methods: map[string]bool{"ByName": true, "ByJSONName": true, "Len": true, "Get": true}}
 	pmOneofsT = &fakeType{name: "gosmt.protoOneofDescriptors", methods: map[string]bool{"ByName": true, "Len": true, "Get": true}}
 	pmFieldT  = &fakeType{name: "gosmt.protoFieldDescriptor", methods: map[string]bool{"Kind": true, "IsList": true, "Name": true, "JSONName": true}}
 	pmOneofT  = &fakeType{name: "gosmt.protoOneofDescriptor", methods: map[string]bool{"Name": true}}
@@ -99,6 +99,15 @@ func init() {
 	}
 }
 
+// isOneofWrapperOf: w is the generated wrapper type <Msg>_<Member> of a oneof member of message type msg.
+func isOneofWrapperOf(w, msg *types.Named) bool {
+	if w == nil || msg == nil || w.Obj().Pkg() != msg.Obj().Pkg() || !strings.HasPrefix(w.Obj().Name(), msg.Obj().Name()+"_") {
+		return false
+	}
+	ws, ok := w.Underlying().(*types.Struct)
+	return ok && ws.NumFields() == 1 && strings.Contains(ws.Tag(0), ",oneof")
+}
+
 func protoStructOf(t types.Type) *types.Named {
 	if p, ok := t.(*types.Pointer); ok {
 		t = p.Elem()
@@ -128,6 +137,28 @@ type protoFieldInfo struct {
 	kind       int64
 	list       bool
 	oneof      string
+}
+
+// jsonName: the json= of the tag, or, when the tag has none, the lowerCamel form of the proto name (protoc's default).
+func (fi protoFieldInfo) jsonName() string {
+	if fi.json != "" {
+		return fi.json
+	}
+	out := make([]byte, 0, len(fi.name))
+	up := false
+	for i := 0; i < len(fi.name); i++ {
+		ch := fi.name[i]
+		if ch == '_' {
+			up = true
+			continue
+		}
+		if up && ch >= 'a' && ch <= 'z' {
+			ch -= 32
+		}
+		up = false
+		out = append(out, ch)
+	}
+	return string(out)
 }
 
 func protoFieldsOf(n *types.Named) []protoFieldInfo {
@@ -251,6 +282,21 @@ func (ex *Exec) protoMethod(recv iface, name string) *modelClosure {
 					panic(ex.unsupported("protoreflect Get with a non-model field descriptor"))
 				}
 				f := fd.v.(protoFieldV)
+				if f.holder == nil && f.st != m.st && isOneofWrapperOf(f.st, m.st) {
+					// a oneof member named by its descriptor (Fields().ByName/ByJSONName): its value when the oneof holds this
+					// member, the default (a nil message) otherwise
+					wst := f.st.Underlying().(*types.Struct)
+					if m.ptr != nil {
+						for _, cell := range (*m.ptr).(structure) {
+							if it, ok := cell.(iface); ok && it.t != nil && protoStructOf(it.t) == f.st {
+								if wp, ok := it.v.(*value); ok && wp != nil {
+									return iface{pmValueT, protoValueV{v: (*wp).(structure)[0], t: wst.Field(0).Type()}}
+								}
+							}
+						}
+					}
+					return iface{pmValueT, protoValueV{v: ex.zero(wst.Field(0).Type()), t: wst.Field(0).Type()}}
+				}
 				if f.holder == nil {
 					// an ordinary field of this message: the struct cell itself (message pointer or slice of them)
 					if f.st != m.st {
@@ -364,11 +410,12 @@ func (ex *Exec) protoMethod(recv iface, name string) *modelClosure {
 				return iface{pmFieldT, protoFieldV{st: d.st, idx: idx[i.Int64()]}}
 			})
 		}
-		if name == "ByName" {
+		if name == "ByName" || name == "ByJSONName" {
+			byJSON := name == "ByJSONName"
 			return mk(func(ex *Exec, fr *frame, pos token.Pos, args []value) value {
-				want := ex.wantConcrete(args[1], "protoreflect Fields().ByName")
+				want := ex.wantConcrete(args[1], "protoreflect Fields()."+name)
 				for i, fi := range protoFieldsOf(d.st) {
-					if fi.kind >= 0 && fi.name == want {
+					if fi.kind >= 0 && (!byJSON && fi.name == want || byJSON && fi.jsonName() == want) {
 						return iface{pmFieldT, protoFieldV{st: d.st, idx: i}}
 					}
 				}
@@ -395,8 +442,9 @@ func (ex *Exec) protoMethod(recv iface, name string) *modelClosure {
 						if ws, ok := w.Underlying().(*types.Struct); !ok || ws.NumFields() != 1 || !strings.Contains(ws.Tag(0), ",oneof") {
 							continue
 						}
-						if protoFieldsOf(w)[0].name == want {
-							panic(ex.unsupported("protoreflect Fields().ByName naming a oneof member (" + want + ")"))
+						if wf := protoFieldsOf(w)[0]; !byJSON && wf.name == want || byJSON && wf.jsonName() == want {
+							// the descriptor of a oneof member: the field of its wrapper type, not tied to a message
+							return iface{pmFieldT, protoFieldV{st: w, idx: 0}}
 						}
 					}
 				}
@@ -456,27 +504,7 @@ func (ex *Exec) protoMethod(recv iface, name string) *modelClosure {
 		case "Name":
 			return mk(func(ex *Exec, fr *frame, pos token.Pos, args []value) value { return ex.strConst(fi.name) })
 		case "JSONName":
-			return mk(func(ex *Exec, fr *frame, pos token.Pos, args []value) value {
-				if fi.json != "" {
-					return ex.strConst(fi.json)
-				}
-				// no json= in the tag: the JSON name is the lowerCamel form of the proto name (protoc's default)
-				out := make([]byte, 0, len(fi.name))
-				up := false
-				for i := 0; i < len(fi.name); i++ {
-					ch := fi.name[i]
-					if ch == '_' {
-						up = true
-						continue
-					}
-					if up && ch >= 'a' && ch <= 'z' {
-						ch -= 32
-					}
-					up = false
-					out = append(out, ch)
-				}
-				return ex.strConst(string(out))
-			})
+			return mk(func(ex *Exec, fr *frame, pos token.Pos, args []value) value { return ex.strConst(fi.jsonName()) })
 		}
 	case pmListT:
 		l := recv.v.(protoListV)
